@@ -86,6 +86,18 @@ func main() {
 	}()
 
 	switch cmd {
+	case "props":
+		// machine-readable: what each property's check decides / does not decide, and its rules
+		out := map[string]any{}
+		for pid, pd := range propDescs {
+			var ids []string
+			for _, r := range rulesFor(pid) {
+				ids = append(ids, r.ID)
+			}
+			out[pid] = map[string]any{"decides": pd.Decides, "not_decided": pd.NotDecided, "rules": ids}
+		}
+		b, _ := json.MarshalIndent(out, "", " ")
+		fmt.Println(string(b))
 	case "rules":
 		for _, r := range allRules {
 			fmt.Printf("%-22s floor=%-3d props=%s\n    %s\n", r.ID, r.Floor, strings.Join(r.Props, ","), r.Doc)
